@@ -87,6 +87,9 @@ def main():
         return 0
     rep = checklib.Report(PID)
     extra = run_kernels(tier, rep)
+    if os.environ.get("C17_KERNELS_ONLY"):          # dev switch: no evidence is written
+        print(json.dumps(extra["attribute_and_yaml_kernels"]["outcome_classes"], indent=1))
+        return rep.finish()
     cov = pe.run_check(PID, tier, seed, rep, extra_cov=extra)
     checklib.write_evidence(PID, tier, seed, "model_checking", cov, ASSUMPTIONS, rep.wall(), len(rep.violations))
     return rep.finish()
